@@ -124,6 +124,59 @@ def reachable_classes(fmt, empty, length_key, allowed_key, maxlen):
     return sorted(seen)
 
 
+def native_cells_from_files():
+    """concrete: a cell is judged by the guards as it is stored -- the same verdict whether the field is asked
+    directly, the table comes from a text stream, or from a file given by path (delimited and fixed).  Exploration
+    over a pool of cells with line breaks, blanks and control characters; not a solver verdict."""
+    import csv
+    import io
+    import os
+    import shutil
+    import tempfile
+    from cutplace import interface, validio, errors
+    failures = []
+    n = 0
+    d = tempfile.mkdtemp(prefix="c03native")
+    cells = ["abc", "a\r\nb", "ab\r\ncd", "a\rb", "a\nb", "ab\ncd", "a\r\n", "\r\nab", "a b", "a\tb", "abcd\n", "abc\n", "\nabc", "ab\x0bc",
+             "a\x85b", "a\u2028b", "abcdef", "ab", "   ", "a\r\r\nb"]
+    try:
+        for allowed in ("32...126, lf", "32...126", "32...126, cr, lf", ""):
+            text = "d,format,delimited\nd,encoding,utf-8\n" + ("d,allowed characters,\"%s\"\n" % allowed if allowed else "") + \
+                "f,k,,,1\nf,v,,,3...5\n"
+            cid = interface.create_cid_from_string(text)
+            rows = [["k", c] for c in cells]
+            path = os.path.join(d, "cells.csv")
+            with open(path, "w", newline="", encoding="utf-8") as f:
+                csv.writer(f).writerows(rows)
+            with open(path, "r", newline="", encoding="utf-8") as f:
+                content = f.read()
+            direct = []
+            for c in cells:
+                try:
+                    cid.field_formats[1].validated(c)
+                    direct.append(True)
+                except errors.FieldValueError:
+                    direct.append(False)
+            for how, source in (("stream", lambda: io.StringIO(content, newline="")), ("path", lambda: path)):
+                n += 1
+                try:
+                    got = [not isinstance(r, errors.DataError) for r in validio.rows(interface.create_cid_from_string(text), source(), on_error="yield")]
+                except Exception as e:  # noqa
+                    failures.append(dict(key="field-guards-stored-cells", what="allowed characters %r, delimited %s: %s: %s" % (
+                        allowed, how, type(e).__name__, e), args=dict(allowed=allowed, how=how)))
+                    continue
+                if got != direct:
+                    i = next((i for i, (a, b) in enumerate(zip(got, direct)) if a != b), None)
+                    failures.append(dict(key="field-guards-stored-cells", what="allowed characters %r: cell %r read from a %s is %s, the field "
+                                         "itself %s it" % (allowed, cells[i] if i is not None else None, how,
+                                                           "accepted" if (i is not None and got[i]) else "rejected",
+                                                           "accepts" if (i is not None and direct[i]) else "rejects"),
+                                         args=dict(allowed=allowed, how=how)))
+    finally:
+        shutil.rmtree(d, ignore_errors=True)
+    return dict(count=n, failures=failures, samples=[])
+
+
 def grid():
     out = []
     for t, e, lk, ak, fmt in itertools.product(ff.TYPES, (False, True), ff.LENGTHS, ff.ALLOWED, ff.FORMATS):
@@ -187,7 +240,7 @@ def build(tier, seed):
                              "fields %s, %d consecutive rows through Reader.rows(on_error='yield'), %d symbolic cells (every "
                              "Unicode text of length <= 2), header 0..2" % ("+".join(keys), len(widths), len(sym)),
                              budget_s=300, per_path_timeout=60, replay=rp, functions=FUNCS + c04.FUNCS, stubs=c04.STUBS))
-    return dict(queries=queries, warm=("strip",),
+    return dict(queries=queries, warm=("strip",), native=native_cells_from_files,
                 assumptions=["fixed-width cells that start or end (after blank-stripping) with white space other than "
                              "the blank are outside the claim: the property speaks of blanks, the code strips all white "
                              "space", "blank-only fixed cells wider than the field are outside the claim"],
